@@ -334,7 +334,7 @@ class C14(OptEngineBase):
     SWEEP_MENU = {"disk": ["eio_read"]}
     ENGINE_NAME = "simio"
     TIERS = {
-        "quick": {"runs": 5000, "budget_s": 75, "chunk": 32},
+        "quick": {"runs": 4000, "budget_s": 75, "chunk": 32},
         "thorough": {"runs": 160000, "budget_s": 900, "chunk": 64},
     }
     RULE = (
